@@ -174,6 +174,8 @@ def to_coq(e):
         return f"(EToList {c(e[1])})"
     if k == "call":
         return f"(ECall {c(e[1])} {clist(e[2], c)})"
+    if k == "callp":
+        return f"(ECallP {c(e[1])} " + clist(e[2], lambda a: f"({'true' if a[0] else 'false'}, {c(a[1])})") + ")"
     if k == "pipe":
         return f"(EPipe {c(e[1])} {c(e[2])} {clist(e[3], c)})"
     if k == "return":
@@ -414,6 +416,13 @@ class Printer:
             return f"{x(e[1], 10)}.to_list()"
         if k == "call":
             return f"{x(e[1], 10)}(" + ", ".join(x(a) for a in e[2]) + ")"
+        if k == "callp":
+            # f(a..., b): packed arguments are always parenthesised atoms
+            def parg(a):
+                if not a[0]:
+                    return x(a[1])
+                return (x(a[1]) if a[1][0] == "id" else "(" + x(a[1]) + ")") + "..."
+            return f"{x(e[1], 10)}(" + ", ".join(parg(a) for a in e[2]) + ")"
         if k == "pipe":
             # a -> f b, c   (paren-free call form, as in the guide; statement level only)
             if prec > 0:
@@ -986,7 +995,49 @@ class FnGen(Gen):
         return params, variadic, required, len(params), names
 
     def fn_stmt(self, d):
-        c = self.r.below(13)
+        c = self.r.below(15)
+        if c >= 13:
+            # packed call arguments: f(a..., b, c...) with 1-5 argument groups of 0-3 elements
+            f, r1, xs = self.fresh("fn"), self.fresh("any"), self.fresh("tuple")
+            a, b, rest = self.fresh("int"), self.fresh("int"), self.fresh("tuple")
+            self.declare(r1, "any")
+            if self.chance(1, 2):
+                fn = ("fn", [], rest, None, ("block", [("id", rest)]))
+                lo = 0
+            else:
+                fn = ("fn", [(("tid", a, None), None), (("tid", b, None), ("int", 50))], rest, None,
+                      ("block", [("tuple", [("id", a), ("id", b), ("id", rest)])]))
+                lo = 1
+            pre = [("assign", f, None, fn), ("assign", xs, None, ("tuple", [("int", 70), ("int", 71)]))]
+            args = []
+            total = 0
+            k = 0
+            for _ in range(1 + self.r.below(5)):
+                n = self.r.below(4)
+                elems = [("int", 10 * len(args) + j) for j in range(n)]
+                kind = self.r.below(7)
+                if kind == 0:
+                    args.append((False, ("int", 90 + len(args))))
+                    total += 1
+                elif kind == 1:
+                    args.append((True, ("id", xs)))
+                    total += 2
+                elif kind == 2:
+                    args.append((True, ("list", elems)))
+                    total += n
+                elif kind == 3:
+                    args.append((True, ("range", ("int", k), ("int", k + n), False)))
+                    total += n
+                elif kind == 4:
+                    args.append((True, ("str", "abc"[:n])))
+                    total += n
+                else:
+                    args.append((True, ("tuple", elems)))
+                    total += n
+                k += 3
+            if total < lo:
+                args.append((False, ("int", 1)))
+            return ("block", pre + [("assign", r1, None, ("callp", ("id", f), args))])
         if c == 12:
             # a function literal whose value is discarded: its body must not run
             r1, x, i = self.fresh("any"), self.fresh("int"), self.fresh("int")
